@@ -19,7 +19,7 @@ open PlzVerif.Walk (Name)
 
 def facts : Facts :=
   { defaultMode := Generated.C34.defaultMode
-    dirBeforeSymlink := Generated.C34.callbackOrder == ["dir:MkdirAll", "symlink:copySymlink", "else:CopyOrLinkFile"]
+    tempThenRename := Generated.C34.tempThenRename
     topLevelSymlinkAware := Generated.C34.topLevelSymlinkAware
     linkRecreatesSymlink := Generated.C34.linkRecreatesSymlink
     fallbackUsesSourceMode := Generated.C34.fallbackUsesSourceMode }
